@@ -3,6 +3,7 @@
   parameterised by the generated guards and callback table (`Gen.Recv`).
 -/
 import NxsModel.Serial
+import NxsModel.Codec
 import NxsModel.Gen.Recv
 namespace Nxs
 namespace Dispatch
@@ -41,6 +42,24 @@ def recvHandle (data : Bytes) : Disp :=
         else if Gen.Recv.guardMax && h.flen > d.length then .ignored
         else if Gen.Recv.guardCrc && !Serial.footValidate (d.take h.flen) then .ignored
         else cbHandle h.fid (slice d hdrLen (h.flen - footLen))
+
+/-- `recv_handle` written against the codec interface only (C20): exactly the statements of
+    `recvHandle` with every `Serial.*` / `Gen.Frame.*` replaced by the field of the codec `c` that
+    `self._frame` stands for -/
+def recvHandleWith (c : Codec) (data : Bytes) : Disp :=
+  match c.hdrFind data with
+  | none => .ignored
+  | some i =>
+    if Gen.Recv.guardShort && data.length - i < c.hdrLen + c.footLen then .ignored
+    else
+      let d := data.drop i
+      match c.hdrDecode d with
+      | .error _ => .ignored
+      | .ok h =>
+        if Gen.Recv.guardMin && h.flen < c.hdrLen + c.footLen then .ignored
+        else if Gen.Recv.guardMax && h.flen > d.length then .ignored
+        else if Gen.Recv.guardCrc && !c.footValidate (d.take h.flen) then .ignored
+        else cbHandle h.fid (slice d c.hdrLen (h.flen - c.footLen))
 
 end Dispatch
 end Nxs
